@@ -1,9 +1,10 @@
 // Command sizes replays the vectors TLC derives from spec/Version.tla:
-//   -mode version : Tversion(msize, version string) at a raw peer of p9.Server -> Rversion as specified
-//   -mode client  : NewClient against a scripted server offering (version, msize) after k EAGAIN answers ->
-//                   adoption of version and msize, message families, request sizes
-//   -mode size    : Tread/Treaddir with every count class under every negotiated msize (incl. re-negotiation)
-//                   -> no frame longer than the announced msize
+//
+//	-mode version : Tversion(msize, version string) at a raw peer of p9.Server -> Rversion as specified
+//	-mode client  : NewClient against a scripted server offering (version, msize) after k EAGAIN answers ->
+//	                adoption of version and msize, message families, request sizes
+//	-mode size    : Tread/Treaddir with every count class under every negotiated msize (incl. re-negotiation)
+//	                -> no frame longer than the announced msize
 package main
 
 import (
@@ -510,6 +511,13 @@ func modeDirFit(t *wirecodec.Table, path string, shard, nshard int, o *out) {
 		}
 		if c.Count >= 0 && total > c.Count {
 			o.Findings = append(o.Findings, fmt.Sprintf("C01: %s: the reply carries %d entries of %d bytes in all (DirentSize), more than the requested count", desc, len(ents), total))
+		}
+		// "cut to whole entries WITHIN the requested count": an entry that ends exactly on the count fits.  A reply
+		// without any entry reads as the end of the directory, so it is wrong whenever the first entry fits the
+		// count and the frame (a reply that merely carries fewer entries than would fit is not held against the server)
+		first := int64(13 + 8 + 1 + 2 + c.NameLens[0])
+		if lim := announced - 11; len(ents) == 0 && (c.Count < 0 || first <= c.Count) && first <= lim {
+			o.Findings = append(o.Findings, fmt.Sprintf("C03: %s: the reply carries no entry although the first one (%d bytes) fits the requested count: the listing ends there for the caller", desc, first))
 		}
 		if len(o.Samples) < 1 && len(ents) > 2 {
 			o.Samples = append(o.Samples, map[string]any{"case": c, "entries": len(ents), "entry_bytes": total, "frame_bytes": len(b)})
